@@ -311,6 +311,17 @@ func (m *MonC09) OnEvent(w *World, rec *StepRec) []*Violation {
 			}
 		}
 	}
+	// installing a snapshot replaces the stored log: nothing older than the snapshot survives behind it
+	if dv := diskView(n.Disk); len(dv.Ents) > 0 && !rec.Restarted {
+		prevT := dv.BaseTerm
+		for _, e := range dv.Ents {
+			if e.GetTerm() < prevT {
+				out = append(out, &Violation{"C09", "snapshot-is-the-new-log-base", fmt.Sprintf("node %d stores %s behind its log base (%d,t%d): entries of an older term survived the installation of the snapshot", n.ID, entStr(e), dv.BaseIndex, dv.BaseTerm)})
+				break
+			}
+			prevT = e.GetTerm()
+		}
+	}
 	// a snapshot is handed to the application for installation once, and only above the commit
 	// index the node had before it accepted it (i.e. above every snapshot handed out before)
 	if rd := rec.Ready; rd != nil && !raft.IsEmptySnap(rd.Snapshot) && !rec.Restarted {
